@@ -172,6 +172,10 @@ def run_chunk(binary, profile, faults, base, count, outdir, deny, samples):
                 f = line.split(' ', 2); events.append(('S', int(f[1]), f[2]))
             elif line.startswith('STATS '):
                 events.append(('STATS', json.loads(line[6:])))
+        if p.returncode == 3:   # stopped after a violation: carry on with the next seed
+            vseeds = [e[1] for e in events if e[0] == 'V']
+            cur = (vseeds[-1] if vseeds else cur) + 1
+            continue
         if p.returncode in (0, 1):
             break
         # died
